@@ -35,25 +35,34 @@ func init() {
 				Desc:   "NormalizeBounds(minimum, maximum, exclusiveMinimum, exclusiveMaximum) denotes exactly the intersection of the stated bounds, for an arbitrary test value x: all 36 presence/kind combinations, all finite float64 bound values, both booleans",
 				Bounds: "finite float64 values (no NaN/Inf: JSON cannot carry them); no loops, no unwinding",
 				Panic:  "violation"},
+			{Name: "numeric-validator", Harness: "pkg/generator:HarnessC05L2", Layer: "L2",
+				Desc:   "numericValidator.generate/genBoundary/valueOf + jsonFormatter.generate emit UnmarshalJSON for `type T struct{X int|*int|float64|*float64}`; the emitted text (bounds as symbolic holes) is type-checked and executed symbolically on a symbolic document: accepted iff x satisfies every stated bound, value kept, receiver unchanged on error, literals fit their context",
+				Bounds: "all presence/kind combinations of the four bounds x {int, float64} x {required, optional-nullable}; exact-grid mode: bounds n/4 with |b| <= 2^36, document numbers n/4 (float carriers) or integers (int carriers) with |x| <= 2^36, Go integers encoded as SMT Ints (no wrap-around can occur in the emitted comparisons); member x absent/null/number",
+				Quick:  map[string]int{"GRID": 2, "GRIDMAG": 36},
+				Panic:  "inconclusive"},
+			{Name: "numeric-validator/float64-semantics", Harness: "pkg/generator:HarnessC05L2", Layer: "L2", OnlyThorough: true,
+				Desc:   "same harness with IEEE float64 bounds (SMT FloatingPoint) and int64 bit-vector document integers compared exactly with the bounds",
+				Bounds: "bound values any finite float64; document numbers any float64 / any int64; queries that time out (60 s) are reported as not covered",
+				Panic:  "inconclusive"},
 		},
 		Assumptions: []string{"bound values are finite float64 (JSON numbers after parsing)"},
 	})
 	reg(&Property{
 		ID: "C15",
 		Units: []Unit{
-			{Name: "min-int-type/float-exact-integers", Harness: "pkg/codegen:HarnessC15L1F", Layer: "L1",
-				Desc:   "PrimitiveTypeFromJSONSchemaType(integer, minIntSize) over symbolic bounds: the chosen type represents every admitted integer, inside the type's range the remaining bounds (with their values after the call) admit exactly the stated set, and no narrower type would do; integer x ranges over all integers exactly representable in float64",
-				Bounds: "exact-grid mode: every bound is n/4 with |b| <= 2^36 (float64 arithmetic of the kernel -- comparisons, +-1.0, math.Round -- is exact there and is encoded as integer arithmetic), x any integer with |x| <= 2^36; covers all 36 presence/kind shapes, every relative order of the bounds and every 8/16/32-bit type limit; 64-bit limits and other magnitudes: thorough tier (FP mode)",
+			{Name: "min-int-type/exact-grid", Harness: "pkg/codegen:HarnessC15L1F", Layer: "L1",
+				Desc:   "PrimitiveTypeFromJSONSchemaType(integer, minIntSize) over symbolic bounds: the chosen type represents every admitted integer, inside the type's range the remaining bounds (with their values after the call) admit exactly the stated set, and no narrower type would do",
+				Bounds: "exact-grid mode: every bound is n/4 with |b| <= 2^36 (float64 arithmetic of the kernel -- comparisons, +-1.0, Ceil/Floor/Round -- is exact there and is encoded as integer arithmetic), x any integer with |x| <= 2^36; covers all 36 presence/kind shapes, every relative order of the bounds and every 8/16/32-bit type limit; 64-bit limits and other magnitudes: thorough tier (FP mode)",
 				Quick:  map[string]int{"GRID": 2, "GRIDMAG": 36},
 				Panic:  "violation"},
 			{Name: "min-int-type/float64-semantics", Harness: "pkg/codegen:HarnessC15L1F", Layer: "L1", OnlyThorough: true,
 				Desc:   "same harness with true IEEE float64 semantics (SMT FloatingPoint 11 53): representable / sound-removal / narrowest for bounds of any magnitude below 2^64",
-				Bounds: "bounds finite, |b| < 2^64; exclusive-form bounds |b| < 2^53 (b+-1 exact in float64); x: integral float64 (every |x| <= 2^53 and all type limits 2^k); queries that time out (60 s) are reported as not covered",
+				Bounds: "bounds finite, |b| < 2^64; exclusive-form bounds |b| < 2^53 (b+-1 exact in float64); x: integral float64 (every |x| <= 2^53 and all type limits 2^k); queries that time out (60 s) are reported as not covered; path budget 400",
 				Panic:  "violation", MaxPaths: 400},
 			{Name: "min-int-type/int64-uint64", Harness: "pkg/codegen:HarnessC15L1B", Layer: "L1", OnlyThorough: true,
 				Desc:   "same kernel with x an arbitrary int64 and u an arbitrary uint64 above MaxInt64, compared exactly (no rounding) with the float64 bounds: representable and sound-removal",
-				Bounds: "as above; integers outside [-2^63, 2^64) outside the claim",
-				Panic:  "violation"},
+				Bounds: "as above; integers outside [-2^63, 2^64) outside the claim; path budget 400",
+				Panic:  "violation", MaxPaths: 400},
 		},
 		Assumptions: []string{"float64->int64 conversion follows amd64 (CVTTSD2SI) semantics"},
 	})
